@@ -395,12 +395,19 @@ def run(ctx):
         kw[lit] = sorted({callee(t).rsplit("::", 1)[-1] for _, t in tts.calls(reg) if (callee(t) or "").startswith("parser::parser::Parser::transform_")})
     routed = [k for k, v in kw.items() if v == ["transform_quote"]]
     ctx.inst("C06-quote", "symbol", {"built": syms, "routed_to_transform_quote": routed})
-    if not syms or any(s not in routed for s in syms if s is not None) or None in syms:
-        ctx.report("C06-quote", "keyword", "the quote abbreviation builds %s but transform_quote is reached by %s" % (syms, routed), where_of(pq))
-    # the list built is (quote <inner>) in that order
-    mac = [t for _, t in pq.calls() if callee_matches(t, "Iterator::collect", "FromIterator>::from_iter")]
-    if not mac:
-        ctx.report("C06-quote", "list", "no list construction found in parse_quoted", where_of(pq))
+    # 'x and (quote x) are parsed as the same quotation (crate's lexer and parser followed; the structure 'x denotes is C06-structure);
+    # the shape of parse_quoted only when the parser cannot be followed
+    from . import readtables as _rt06
+    kq = _rt06.rule_keywords(ctx, "C06-quote", only={"quote", "quote-abbreviation"})
+
+    def _quote_shape():
+        if not syms or any(s not in routed for s in syms if s is not None) or None in syms:
+            ctx.report("C06-quote", "keyword", "the quote abbreviation builds %s but transform_quote is reached by %s" % (syms, routed), where_of(pq))
+        # the list built is (quote <inner>) in that order
+        mac = [t for _, t in pq.calls() if callee_matches(t, "Iterator::collect", "FromIterator>::from_iter")]
+        if not mac:
+            ctx.report("C06-quote", "list", "no list construction found in parse_quoted", where_of(pq))
+    ctx.guarded("C06-quote", bool(kq) and all(v is not None for v in kq.values()), _quote_shape)
 
     # ------------------------------------------------------------------ C06-delimited
     ctx.rule("C06-delimited", "tokens end only at delimiters: last event before a token exit is delimiter evidence")
